@@ -229,6 +229,10 @@ def make(n, kinds, jobs_hi, sigterm_bit=True, orders="rev"):
                 nm = row[0].split(":")[-1]
                 g.require(nm in ok_names, "abort:version-recorded-for-unfinished-task@" + func,
                           "row %s but the task never exited 0; %s" % (row, ctxt))
+                # ... and what is recorded keeps its output (an abort must not clean up a finished, recorded version)
+                d = res.proj.out / ("%s.task.%d" % (nm, row[1]))
+                g.require(d.is_dir() and (d / "result.txt").is_file(), "abort:recorded-version-lost-its-output@" + func,
+                          "row %s is recorded but %s is missing or incomplete after the abort; %s" % (row, d.name, ctxt))
             # (c) exits non-zero, reporting the abort, not an internal error
             if isinstance(res.status, str):
                 g.require(False, "abort:internal-error:%s@%s" % (res.status[4:], func),
